@@ -548,8 +548,42 @@ C17TwoHop(pre, e, post) ==
      /\ Sub("threshold", IF e.args.exactIn THEN e.args.threshold \preceq got ELSE paid \preceq e.args.threshold)
      /\ Sub("amount_bound", IF e.args.exactIn THEN paid \preceq e.args.amount ELSE got \preceq e.args.amount)
 
+(* C10: a swap crosses exactly the initialized ticks in its path.  Stated on tick indexes: going
+   down, a crossing of T leaves tick_current = T - 1, so the ticks crossed are the initialized T with
+   post.tick < T <= pre.tick; going up, crossing T leaves tick_current = T: pre.tick < T <= post.tick.
+   `Initialized' ranges over ALL ticks of the pool in the abstract state, whether or not the array
+   holding them was supplied - a swap that skips liquidity because of its packaging violates this. *)
+InitTicksOf(s, p) == {s.tick[k].idx : k \in {k \in DOMAIN s.tick : s.tick[k].pool = p /\ s.tick[k].init}}
+C10PathOf(pre, post, p, sw, aToB) ==
+  LET expect == IF aToB THEN {t \in InitTicksOf(pre, p) : post.pool[p].tick < t /\ t <= pre.pool[p].tick}
+                ELSE {t \in InitTicksOf(pre, p) : pre.pool[p].tick < t /\ t <= post.pool[p].tick}
+      cr == SelectSeq(sw.steps, LAMBDA s_ : "crossed" \in DOMAIN s_)
+      crTicks == [i \in DOMAIN cr |-> cr[i].crossed.tick]
+      netSum == SeqSum(cr, LAMBDA s_ : s_.crossed.net)
+  IN /\ Sub("crossed_set", {crTicks[i] : i \in DOMAIN crTicks} = expect)
+     /\ Sub("each_once", Len(crTicks) = Cardinality(expect))
+     /\ Sub("in_price_order", \A i \in 1..(Len(crTicks) - 1) : IF aToB THEN crTicks[i + 1] < crTicks[i] ELSE crTicks[i] < crTicks[i + 1])
+     /\ Sub("net_of_the_tick", \A i \in DOMAIN cr : cr[i].crossed.net \doteq TickOf(pre, p, cr[i].crossed.tick).net)
+     /\ Sub("liquidity_change", post.pool[p].liq \doteq (IF aToB THEN pre.pool[p].liq -- netSum ELSE pre.pool[p].liq ++ netSum))
+     /\ Sub("no_step_jumps_a_tick", \A i \in DOMAIN sw.steps :
+            LET s_ == sw.steps[i] IN
+            ~\E t \in InitTicksOf(pre, p) :     \* an initialized tick strictly inside the step's price segment
+                 IF aToB THEN s_.p1 \prec P(pre, t) /\ P(pre, t) \prec s_.p0 ELSE s_.p0 \prec P(pre, t) /\ P(pre, t) \prec s_.p1)
+
+C10Swap(pre, e, post) ==
+  /\ Sub("one_swap_record", Len(e.swaps) = 1 /\ e.swaps[1].done)
+  /\ C10PathOf(pre, post, APool(e), e.swaps[1], e.args.aToB)
+
+C10Pack(pre, e) ==
+  e.pack.present =>
+    /\ Sub("same_outcome_however_packaged", e.pack.expectSame => e.pack.result = e.pack.ref)
+    /\ Sub("fails_rather_than_skip", (e.pack.truncated /\ e.pack.result.ok) => e.pack.result = e.pack.ref)
+    /\ Sub("foreign_array_rejected", e.pack.foreign => ~e.pack.result.ok)
+
 (* the per-event transition *)
 IxOK(pre, e, post) ==
+  /\ IF IsSwapName(e.name) THEN Chk("C10", "path", C10Swap(pre, e, post)) ELSE TRUE
+  /\ Chk("C10", "packaging", C10Pack(pre, e))
   /\ Chk("C17", "two_hop", C17TwoHop(pre, e, post))
   /\ Chk("C04", "authorised", Guard(pre, e))
   /\ Chk("C15", "accounts_belong", Guard(pre, e))
@@ -586,6 +620,7 @@ IxOK(pre, e, post) ==
      ELSE TRUE
 
 IxFailed(pre, e) ==
+  /\ Chk("C10", "packaging_failed", C10Pack(pre, e))
   /\ Chk("C12", "anchor_equals_pinocchio_on_failure", DualOK(e))
   /\ Chk("C12", "entrypoint_routing_on_failure", e.routing \in {"none", "same"})
   /\ Chk("ANY", "must_succeed", ~e.must)
